@@ -151,6 +151,23 @@ def run(ctx):
                     ctx.violation("purity:validate", "validate (add_comments off) modified its argument", {"text": t, "version": ver, "include_position": ip})
                 elif r1 != r2:
                     ctx.violation("history:validator", "validating the same dictionary again (reused Validator) answers differently (version %r)" % ver, {"text": t, "version": ver, "include_position": ip})
+    # ---- directed purity of dumps: every kind of value the printer rewrites while formatting (string items of lists,
+    # bindings, key-value blocks, repeated keywords, projections, expressions), default options and a few option sets
+    printable = ['STYLE COLORRANGE "#0000ff" "#ff0000" DATARANGE 1 2 END', 'LABEL OFFSET [ox] [oy] SHADOWSIZE 2 [sz] END', 'STYLE POLAROFFSET [r] [a] END',
+                 "MAP WEB METADATA 'a' 'b' 'c' 'd' END END CONFIG 'K' 'v' PROJECTION 'init=epsg:4326' END END",
+                 'LAYER TYPE POINT PROCESSING "A=1" PROCESSING "B=2" CLASS EXPRESSION ([a] > 1) TEXT ([n]) END END', 'MAP EXTENT 0 0 10 10 LAYER TYPE LINE FEATURE POINTS 1 1 2 2 END END END END']
+    for t in printable:
+        try:
+            d = sweep.fast_loads(t)
+        except Exception:
+            continue
+        for kw in ({}, {"quote": "'"}, {"align_values": True, "end_comment": True}, {"indent": 0, "newlinechar": "\r\n"}):
+            ctx.note_case(("dumps-purity", t, tuple(sorted(kw.items()))))
+            before = snapshot(d)
+            r = outcome(lambda: mappyfile.dumps(d, **kw))
+            if snapshot(d) != before:
+                ctx.violation("purity:dumps", "dumps (separate_complex_types off) modified its argument", {"text": t, "options": kw})
+                break
     # ---- purity of the query helpers on dictionaries that HAVE the key (lacking keys: C18's known finding)
     for t in gens[:ctx.budget(20, 40)]:
         try:
